@@ -202,6 +202,7 @@ func runC01(c *Ctx) {
 	tokenizerWindowRules(c, p)
 	spanLineRules(c, p)
 	checkContainmentTie(c, p)
+	checkJoinLoopsComplete(c, p)
 }
 
 // checkThresholdAndQ: R01.2. The threshold a caller configures is the one stored and compared with, q is derived from it,
@@ -243,6 +244,45 @@ func checkThresholdAndQ(c *Ctx, p *core.Prog) {
 	}
 	c.R.RequireMin("R01.2", "generateSearchSet call sites", ng, 1)
 
+}
+
+// checkJoinLoopsComplete: R01.5. Two loops of the candidate pipeline must look at every element, because any element can be
+// the one that belongs to a planted copy: the loop over the source occurrences of a q-gram in targetMatchedRanges (a run
+// at another offset is continued by a later occurrence) and the loop over the candidate ranges of one document in match
+// (a rejected range says nothing about the next one: ranges are ordered by an over-estimate of claimed tokens).
+func checkJoinLoopsComplete(c *Ctx, p *core.Prog) {
+	n := 0
+	if tmr := p.Func(v2pkg, "targetMatchedRanges"); c.R.Anchor(tmr != nil, "v2.targetMatchedRanges") {
+		for _, rl := range rangeLoopsOf(tmr) {
+			// the ranged value is the result of a map lookup (the occurrences stored under one checksum)
+			v := core.Unspill(rl.over)
+			if ex, ok := v.(*ssa.Extract); ok {
+				v = ex.Tuple
+			}
+			if _, ok := v.(*ssa.Lookup); !ok {
+				continue
+			}
+			n++
+			early, pos := leavesEarly(rl.header)
+			c.R.Check(!early, "R01.5", "targetMatchedRanges: the loop over the source occurrences of a q-gram looks at every occurrence", p.Pos(rl.header.Instrs[0].Pos()),
+				"the loop is left only when the occurrences are exhausted", "the loop can be left early at "+p.Pos(pos)+": the occurrences behind the one that triggers the exit are never joined, so a run at another offset (a repeated passage) is cut and the copy is reported short or not at all")
+		}
+	}
+	if m := p.Func(v2pkg, "(*Classifier).match"); c.R.Anchor(m != nil, "v2.(*Classifier).match") {
+		for _, f := range pkgClosure(m, v2pkg) {
+			for _, rl := range rangeLoopsOf(f) {
+				call, ok := core.Unspill(rl.over).(*ssa.Call)
+				if !ok || !p.IsFn(call.Call.StaticCallee(), v2pkg, "(*Classifier).findPotentialMatches") {
+					continue
+				}
+				n++
+				early, pos := leavesEarly(rl.header)
+				c.R.Check(!early, "R01.5", "match: the loop over the candidate ranges of a document scores every range", p.Pos(rl.header.Instrs[0].Pos()),
+					"the loop is left only when the ranges are exhausted", "the loop can be left early at "+p.Pos(pos)+": the ranges behind the one that triggers the exit are never scored, so a copy whose range comes after a rejected one goes unreported")
+			}
+		}
+	}
+	c.R.RequireMin("R01.5", "join / scoring loops", n, 2)
 }
 
 // checkContainmentTie: R01.4. Two corpus documents with the same words (one text registered under two names, a user's
